@@ -29,8 +29,8 @@ SPEC = {
     "lean_modules": ["TrustVerif.Props.C15"],
     "translators": [translate_glue, build_lsp],
     "tiers": {
-        "quick": {"cases": 330, "extra": {"lexreps": 4}},
-        "thorough": {"cases": 12000, "extra": {"lexreps": 99}},
+        "quick": {"cases": 372, "extra": {"lexreps": 4, "gluecases": 42}},
+        "thorough": {"cases": 12420, "extra": {"lexreps": 99, "gluecases": 420}},
     },
     # model and implementation are compared on the formatters' complete replies; what the property
     # itself says is evaluated on the implementation's output by the oracle (extra()), so a
@@ -41,10 +41,18 @@ SPEC = {
             "literals, strings with every special character) in VAR-block initialisers incl. multi-line and shuffled ones, "
             "assignments, named call arguments and CASE labels; 1 text in 8 ends without a line terminator in a line with "
             "characters outside the BMP, with range / on-type requests reaching it; valid programs 38%, mutated 22%, "
-            "mixed comment/pragma/string lines 14%, token soup 11%, tiny 3%; LF/CRLF/mixed) x generated configuration (FormattingOptions, vendor profile via trust-lsp.toml, all "
+            "mixed comment/pragma/string lines 14%, token soup 11%, tiny 3%; 1 text in 4 writes variable references Siemens-style `#name` "
+            "(a Hash token directly behind keywords, operators, brackets), flagged texts take based / typed literals apart at the `#` (`16 # FF`, `INT# 5`); "
+            "LF/CRLF/mixed) x generated configuration (FormattingOptions, vendor profile via trust-lsp.toml, all "
             "eight client settings through random key aliases) x full + 1-2 ranges + 1-2 on-type positions + second "
             "formatting + web formatter twice; non-trivial = at least 3 non-trivia tokens and 2 lines; distinct = by hash of "
-            "the case's operation lines",
+            "the case's operation lines.  GLUE MATRIX (the gluecases cases that follow the fixed witness cases - 20..61 in the quick tier - swept independently of the seed; the seed picks "
+            "representatives, continuation, frame and source white space): every left-hand token class (keyword, identifier, integer, "
+            "real, temporal literal, typed-literal prefix, temporal prefix, direct address, string, closer) x every punctuation / operator "
+            "should_glue mentions (12 + 15), 20 swept + 8 random pairs per text, each pair on a line WITHOUT any other `(` `.` `..` and on "
+            "a line with a call / member access / subrange next to it, in default-spaced (profiles none/codesys/mitsubishi/acme), "
+            "explicitly spaced (all five profiles) and compact (explicit or by the siemens profile) style; lines containing a token the "
+            "lexer labels by its right context (open finding) are left out, exactly those",
     "trusted_base": [
         "Lean 4.33.0 kernel; axioms per theorem listed under 'theorems'",
         "hand-written model lean/TrustVerif/Model/C15.lean of format_config, should_glue, format_line_tokens, the per-line "
@@ -97,7 +105,11 @@ def explain(op, what, g_src, g_doc):
             out.add("C15-exotic-space")
         if "irregular-token" in g_src and what == "tokens":
             out.add("C15-lexer-context-dependent-token")
+        if "assign-op-in-token" in g_src and what == "tokens":
+            out.add("C15-align-assign-op-in-token")
     elif op == "idem":
+        if "assign-op-in-token" in both:
+            out.add("C15-align-assign-op-in-token")
         if "wrapped" in both:
             out.add("C15-wrap-not-idempotent")
         if "open-ended-error-token" in both:
@@ -142,7 +154,10 @@ def classify(cases, guards, open_findings, seed, tier, found_by):
             if l.startswith("# irregular "):
                 # set by the harness: a token whose label depends on its right context (lexer quirk)
                 guards.setdefault((c.n, {"source": 0, "lsp-formatted": 1, "web-formatted": 2}[l.split()[2]]), set()).add("irregular-token")
+        request = ""
         for l in c.lines:
+            if l.startswith(("range ", "ontype ", "full", "web")):
+                request = l
             if l.startswith("cfg "):
                 cfg = l
             elif l.startswith("# doc "):
@@ -168,7 +183,8 @@ def classify(cases, guards, open_findings, seed, tier, found_by):
                         "what": f"{o['op']} formatting: {o['what']} — {o['detail']}",
                         "case": c.n, "seed": seed, "tier": tier, "config": cfg,
                         "source": texts.get("source", ""), "document": texts.get(o["doc"], ""),
-                        "operation": o["op"], "guards_violated": sorted(g_src | g_doc),
+                        "operation": o["op"], "failure": o["what"], "request": request,
+                        "guards_violated": sorted(g_src | g_doc),
                         "not_a_known_finding": "no guard of an open finding is violated",
                         "found_by": found_by, "shrunk": "shrunk" in c.tags,
                         "replay_cmd": "./check.py C15 --replay <this file>",
@@ -179,14 +195,33 @@ def classify(cases, guards, open_findings, seed, tier, found_by):
     return failures, known_hits, guard_hist, n_oracle, n_fail, witnessed
 
 
-def neighbourhood(ctx, open_findings):
-    """Model and implementation disagree: look for a failing input OF THE PROPERTY near the disagreeing cases.
+def requests_of(request):
+    """`range a b c d` / `ontype l c` op line -> the `requests` object of a neighbour-file entry."""
+    w = request.split()
+    if len(w) == 5 and w[0] == "range":
+        return {"ranges": [[int(x) for x in w[1:]]], "ontype": []}
+    if len(w) == 3 and w[0] == "ontype":
+        return {"ranges": [], "ontype": [[int(x) for x in w[1:]]]}
+    return {"ranges": [], "ontype": []}
+
+
+def neighbourhood(ctx, open_findings, failing=()):
+    """`failing`: oracle failures of generated cases that no open finding explains - the first three distinct cases
+    are run again with the request that failed and shrunk line by line while the same failure persists (the shrunk
+    text is judged by the oracle and classified like every other case).
+    Model and implementation disagree: look for a failing input OF THE PROPERTY near the disagreeing cases.
     The harness splices the constructs that text-based helpers trip over (strings / comments containing `//`,
     `:=`, `=>`, `:`; commented-out code; lines that wrap; runs of blank lines) into each disagreeing source, varies
     the line limit, runs full / range / on-type / second formatting through the real server, judges every variant
     with the property oracle and shrinks the first failing variants line by line."""
     tier, seed = ctx["tier"], ctx["seed"]
     seeds, seen = [], set()
+    for f in failing:
+        if (f["config"], f["source"]) not in seen and len(seeds) < 3 and f["failure"] != "panic":
+            seen.add((f["config"], f["source"]))
+            seeds.append({"cfg": f["config"], "source": f["source"], "want": [f["operation"], f["failure"]],
+                          "requests": requests_of(f["request"])})
+    nwant = len(seeds)
     for d in ctx["result"]["disagreements"]:
         cfg = src = None
         for l in d.get("case_lines", []):
@@ -197,7 +232,7 @@ def neighbourhood(ctx, open_findings):
         if cfg and src is not None and (cfg, src) not in seen:
             seen.add((cfg, src))
             seeds.append({"cfg": cfg, "source": src})
-        if len(seeds) >= 6:
+        if len(seeds) >= 6 + nwant:
             break
     if not seeds:
         return [], {}
@@ -233,8 +268,8 @@ def extra(ctx):
         "known_findings_reproduced_on_their_witness": sorted(witnessed),
         "known_findings_not_reproduced": sorted(set(open_findings) - set(known_hits)),
     }
-    if ctx["result"]["disagreements"] and "only" not in ctx:
-        nf, ncov = neighbourhood(ctx, open_findings)
+    if (ctx["result"]["disagreements"] or failures) and "only" not in ctx:
+        nf, ncov = neighbourhood(ctx, open_findings, failures)
         coverage.update(ncov)
         # failing inputs of the neighbourhood (shrunk ones first) are reported before the generated ones
         failures = nf + failures
@@ -257,7 +292,8 @@ def replay(obj):
             print("harness does not build:", log[-800:])
             return 1
         npath = os.path.join(vlib.WORK, "C15.replay.neighbour.json")
-        json.dump([{"cfg": obj["config"], "source": obj["source"]}], open(npath, "w"))
+        json.dump([{"cfg": obj["config"], "source": obj["source"], "requests": requests_of(obj.get("request", ""))}],
+                  open(npath, "w"))
         out_path = os.path.join(vlib.WORK, "C15.replay.cases.txt")
         rc, log = vlib.run_harness("c15", obj["seed"], 1, out_path, {"neighbour": npath})
         if rc != 0:
@@ -302,10 +338,14 @@ MANIFEST["level_text"] = (
     "when the first ':' is not a Colon token; (3) c15_range_edit (the edit replaces exactly source lines a..b by formatted "
     "lines a..b; LF texts, range not touching the last line) + c15_range_line_count (without wrapping - range/on-type "
     "formatting never wrap - one formatted line per source line) + c15_full_edit; (4) c15_no_panic - for every configuration "
-    "the indent never underflows; (5) web formatter: c15_web_lines, c15_web_nonws, c15_web_idempotent - IN FULL for every text. "
+    "the indent never underflows; (5) web formatter: c15_web_lines, c15_web_nonws, c15_web_idempotent - IN FULL for every text; "
+    "(6) c15_relex_guard_needed_without_paren_or_dot - the re-lex guard cannot be restricted to compact style or to lines with "
+    "`(` `.` `..`: in spaced style exactly seven further class pairs (keyword / identifier / integer + `#`, temporal prefix + sign / "
+    "number) are glued unsafely; c15_align_assign_partial - align_assignment_ops inserts white space only, for every list of lines. "
     "Still violated by the code, each with a proved counterexample or a replayed witness and an OPEN entry in "
     "known_findings.json: LSP formatting is not idempotent after wrapping (c15_wrap_idempotent_counterexample), the web "
-    "formatter re-indents the interior of multi-line comments / pragmas (c15_web_comment_counterexample), open-ended Error "
+    "formatter re-indents the interior of multi-line comments / pragmas (c15_web_comment_counterexample), in compact style the "
+    "assignment alignment pads inside the token pair `<=` `>` (text search finds \"=>\"; c15_align_assign_counterexample), open-ended Error "
     "tokens, Unicode white space Error tokens, context-dependent lexer labels."
 )
 MANIFEST["level_note"] = (
